@@ -66,70 +66,108 @@ structure J where
   total : Nat := 0        -- declared payload octets of the open message
   evs : List Ev := []
 
+/-- outcome of judging one frame: go on behind it, or a final verdict -/
+inductive JStep
+  | next (j : J) (rest : Bytes)
+  | done (evs : List Ev) (v : Verdict) (restlen : Nat)
+
+/-- the parsed fixed part of a frame header -/
+structure Hd where
+  fin : Bool
+  rsv : Nat
+  opcode : Nat
+  masked : Bool
+  len7 : Nat
+
+def Hd.ofOctets (o0 o1 : UInt8) : Hd :=
+  { fin := o0.toNat / 128 = 1, rsv := o0.toNat / 16 % 8, opcode := o0.toNat % 16,
+    masked := o1.toNat / 128 = 1, len7 := o1.toNat % 128 }
+
+def Hd.extN (h : Hd) : Nat := if h.len7 = 126 then 2 else if h.len7 = 127 then 8 else 0
+def Hd.keyN (h : Hd) : Nat := if h.masked then 4 else 0
+
+/-- declared payload length, from the octets behind the first two -/
+def Hd.plen (h : Hd) (rest2 : Bytes) : Nat := if h.len7 < 126 then h.len7 else beNat (rest2.take h.extN)
+
+def Hd.key (h : Hd) (rest2 : Bytes) : Option Key :=
+  if h.masked then
+    match (rest2.drop h.extN).take 4 with
+    | [a, b, k2, d] => some ⟨a, b, k2, d⟩
+    | _ => none
+  else none
+
+/-- the payload octets present, unmasked -/
+def unmaskAvail (c : Ctx) (key : Option Key) (avail : Bytes) : Bytes :=
+  match key with
+  | some k => if c.applyMask then (Xor.spec k 0 avail).1 else avail
+  | none => avail
+
+/-- a complete control frame (§5.5) -/
+def judgeControl (j : J) (bslen : Nat) (opcode : Nat) (unmasked after : Bytes) : JStep :=
+  if opcode = 9 then .next { j with evs := j.evs ++ [.ping unmasked] } after
+  else if opcode = 10 then .next { j with evs := j.evs ++ [.pong unmasked] } after
+  else
+    -- close
+    let code := if unmasked.length ≥ 2 then some (beNat (unmasked.take 2)) else none
+    let reason := if unmasked.length > 2 then some (unmasked.drop 2) else none
+    match code with
+    | some cd => if !closeCodeOk cd then .done j.evs (.fail 1002) bslen else
+      (match reason with
+       | some r => if !utf8Valid r then .done j.evs (.fail 1007) bslen
+                   else .done (j.evs ++ [.close code reason]) .closedByPeer after.length
+       | none => .done (j.evs ++ [.close code none]) .closedByPeer after.length)
+    | none => .done (j.evs ++ [.close none none]) .closedByPeer after.length
+
+/-- the message bookkeeping when a data frame header arrives -/
+def J.enter (c : Ctx) (j : J) (h : Hd) (plen : Nat) : J :=
+  let j := if !j.inside then
+      { j with inside := true, binary := h.opcode = 2, compressed := c.pmce && h.rsv = 4,
+               validate := h.opcode = 1 && c.utf8validate, utf8 := .s0, acc := [], total := 0 }
+    else j
+  { j with total := j.total + plen }
+
+/-- a data frame (§5.4, §5.6), possibly with only a part of its payload present -/
+def judgeData (c : Ctx) (j0 : J) (bslen : Nat) (h : Hd) (plen : Nat) (unmasked : Bytes) (complete : Bool)
+    (after : Bytes) : JStep :=
+  let j := j0.enter c h plen
+  -- limits are judged on the declared length, as soon as the header is complete
+  if 0 < c.maxMsg && c.maxMsg < j.total then .done j.evs (.fail 1009) bslen else
+  if 0 < c.maxFrame && c.maxFrame < plen then .done j.evs (.fail 1009) bslen else
+  let u := if j.validate && !j.compressed then u8run j.utf8 unmasked else j.utf8
+  if u = .rej then .done j.evs (.fail 1007) bslen else     -- fail fast: no continuation can repair it
+  if !complete then .done j.evs .ok bslen else
+  let j := { j with utf8 := u, acc := j.acc ++ unmasked }
+  if h.fin then
+    if j.validate && !j.compressed && u ≠ .s0 then .done j.evs (.fail 1007) bslen else   -- ends inside a code point
+    .next { j with inside := false, acc := [], evs := j.evs ++ [.message j.acc j.binary j.compressed] } after
+  else .next j after
+
+/-- judge the frame at the front of `bs` -/
+def judgeStep (c : Ctx) (j : J) (bs : Bytes) : JStep :=
+  match bs with
+  | o0 :: o1 :: rest2 =>
+    let h := Hd.ofOctets o0 o1
+    if !headerOk c j.inside h.fin h.rsv h.opcode h.masked h.len7 then .done j.evs (.fail 1002) bs.length else
+    if rest2.length < h.extN + h.keyN then .done j.evs .ok bs.length else   -- header incomplete: no verdict yet
+    let plen := h.plen rest2
+    if !extLenOk h.len7 plen then .done j.evs (.fail 1002) bs.length else
+    let body := rest2.drop (h.extN + h.keyN)
+    let unmasked := unmaskAvail c (h.key rest2) (body.take plen)
+    let complete := body.length ≥ plen
+    if h.opcode ≥ 8 then
+      -- control frame: acts only when complete
+      if !complete then .done j.evs .ok bs.length
+      else judgeControl j bs.length h.opcode unmasked (body.drop plen)
+    else judgeData c j bs.length h plen unmasked complete (body.drop plen)
+  | _ => .done j.evs .ok bs.length
+
 /-- judge from a frame boundary.  `fuel` bounds the number of frames (each consumes ≥ 2 octets). -/
 def judgeFrom (c : Ctx) : Nat → J → Bytes → List Ev × Verdict × Nat
   | 0, j, bs => (j.evs, .ok, bs.length)
   | fuel + 1, j, bs =>
-    match bs with
-    | o0 :: o1 :: rest2 =>
-      let fin := o0.toNat / 128 = 1
-      let rsv := o0.toNat / 16 % 8
-      let opcode := o0.toNat % 16
-      let masked := o1.toNat / 128 = 1
-      let len7 := o1.toNat % 128
-      if !headerOk c j.inside fin rsv opcode masked len7 then (j.evs, .fail 1002, bs.length) else
-      let extN := if len7 = 126 then 2 else if len7 = 127 then 8 else 0
-      if rest2.length < extN + (if masked then 4 else 0) then (j.evs, .ok, bs.length) else   -- header incomplete: no verdict yet
-      let plen := if len7 < 126 then len7 else beNat (rest2.take extN)
-      if !extLenOk len7 plen then (j.evs, .fail 1002, bs.length) else
-      let key : Option Key :=
-        if masked then
-          match (rest2.drop extN).take 4 with
-          | [a, b, k2, d] => some ⟨a, b, k2, d⟩
-          | _ => none
-        else none
-      let body := rest2.drop (extN + (if masked then 4 else 0))
-      let avail := body.take plen
-      let unmasked := match key with
-        | some k => if c.applyMask then (Xor.spec k 0 avail).1 else avail
-        | none => avail
-      let complete := body.length ≥ plen
-      if opcode ≥ 8 then
-        -- control frame: acts only when complete
-        if !complete then (j.evs, .ok, bs.length) else
-        let after := body.drop plen
-        if opcode = 9 then judgeFrom c fuel { j with evs := j.evs ++ [.ping unmasked] } after
-        else if opcode = 10 then judgeFrom c fuel { j with evs := j.evs ++ [.pong unmasked] } after
-        else
-          -- close
-          let code := if unmasked.length ≥ 2 then some (beNat (unmasked.take 2)) else none
-          let reason := if unmasked.length > 2 then some (unmasked.drop 2) else none
-          match code with
-          | some cd => if !closeCodeOk cd then (j.evs, .fail 1002, bs.length) else
-            (match reason with
-             | some r => if !utf8Valid r then (j.evs, .fail 1007, bs.length) else (j.evs ++ [.close code reason], .closedByPeer, after.length)
-             | none => (j.evs ++ [.close code none], .closedByPeer, after.length))
-          | none => (j.evs ++ [.close none none], .closedByPeer, after.length)
-      else
-        -- data frame
-        let j := if !j.inside then
-            { j with inside := true, binary := opcode = 2, compressed := c.pmce && rsv = 4,
-                     validate := opcode = 1 && c.utf8validate, utf8 := .s0, acc := [], total := 0 }
-          else j
-        let j := { j with total := j.total + plen }
-        -- limits are judged on the declared length, as soon as the header is complete
-        if 0 < c.maxMsg && c.maxMsg < j.total then (j.evs, .fail 1009, bs.length) else
-        if 0 < c.maxFrame && c.maxFrame < plen then (j.evs, .fail 1009, bs.length) else
-        let u := if j.validate && !j.compressed then u8run j.utf8 unmasked else j.utf8
-        if u = .rej then (j.evs, .fail 1007, bs.length) else     -- fail fast: no continuation can repair it
-        if !complete then (j.evs, .ok, bs.length) else
-        let j := { j with utf8 := u, acc := j.acc ++ unmasked }
-        let after := body.drop plen
-        if fin then
-          if j.validate && !j.compressed && u ≠ .s0 then (j.evs, .fail 1007, bs.length) else   -- ends inside a code point
-          judgeFrom c fuel { j with inside := false, acc := [], evs := j.evs ++ [.message j.acc j.binary j.compressed] } after
-        else judgeFrom c fuel j after
-    | _ => (j.evs, .ok, bs.length)
+    match judgeStep c j bs with
+    | .next j' rest => judgeFrom c fuel j' rest
+    | .done evs v r => (evs, v, r)
 
 def judge (c : Ctx) (stream : Bytes) : List Ev × Verdict × Nat := judgeFrom c (stream.length / 2 + 1) {} stream
 
